@@ -263,7 +263,6 @@ def describe_reader_row(q, cx, lv, tag, body, path):
         d["add_call"] = adds[0][0]
         d["path"] = list(path) + [d["adds"]]
     # columns -> struct fields
-    n_next = sum(1 for k in kinds if k in ("next", "end"))
     col_role = {}
     for st in RD.struct_lits(fn, body, U.MODEL_INFO):
         for f in st["fields"]:
@@ -521,9 +520,6 @@ def r03_4(q, R, cx, spec):
            % tuple(spec["header"]), got={"literals": {str(k): v for k, v in h["lits"].items()}, "namespaces": h["ns"], "err": h["err_exit"],
                                          "problems": h["problems"]})
     # ---- rows
-    unread = set()
-    for lf in cx.leaves:
-        pass
     read_roles = set()
     for rr in cx.rrows.values():
         for c in rr["cols"]:
@@ -772,7 +768,7 @@ def r03_5(q, R, cx, spec):
             c = rr["comment"]
             R.inst("R03.5", "comment-unescaped:%s" % pk, c["calls"] == ["unescape"] and bool(c["value_root"]) and c["value_root"][0] == "line"
                    and c["value_root"][1] == "end", sp=rr["body"].get("sp"), expect="unescape(line.end()?)", got={"calls": c["calls"], "from": str(c["value_root"][:2]) if c["value_root"] else None})
-    R.floor("R03.5", 5 + 9)
+    R.floor("R03.5", 5 + 8)
 
 
 # ------------------------------------------------------------------------------------------------ R03.6
